@@ -15,11 +15,13 @@ EXTENDS Naturals, Sequences, FiniteSets, TLC
 CONSTANTS OpTab,      \* op id -> [k, o, g, aw, body, panic, block, f, then, n, t, par]
           NObj,       \* number of Desync objects
           NGate,      \* number of external events
-          Pool0       \* configured pool maximum at the start of the run
+          Pool0,      \* configured pool maximum at the start of the run
+          NPipe       \* number of pipes
 
 Ops   == DOMAIN OpTab
 Objs  == 1..NObj
 Gates == 1..NGate
+Pipes == 1..NPipe
 
 K(op) == OpTab[op].k
 O(op) == OpTab[op].o
@@ -56,6 +58,11 @@ InitH == [ called   |-> {},                       \* ops whose call was invoked
            polled   |-> {},                       \* future ops that have been polled/awaited at least once
            susp     |-> [o \in Objs |-> 0],       \* 0 = not suspended, else the suspend op whose future resolved and was not yet resumed
            resumed  |-> {},                       \* suspend ops resumed / resumer dropped
+           psent    |-> [p \in Pipes |-> << >>],  \* items supplied to the input stream of each pipe
+           pproc    |-> [p \in Pipes |-> 0],      \* items whose processing started / ended
+           pfin     |-> [p \in Pipes |-> 0],
+           pout     |-> [p \in Pipes |-> 0],      \* outputs received by the consumer
+           pflags   |-> [p \in Pipes |-> {}],     \* "in_closed", "in_end", "in_dropped", "closure_dropped", "stream_dropped", "out_end", "late_event"
            viol     |-> {} ]
 
 Viol(h, cond, tag) == IF cond THEN [h EXCEPT !.viol = @ \cup {tag}] ELSE h
@@ -68,6 +75,9 @@ Finished(h, a) == a \in h.ended \/ a \in h.cancel \/ (K(a) = "suspend" /\ a \in 
 
 \* objects that have unfinished work right now
 Unfinished(h) == {O(a) : a \in {x \in h.called : IsClosureOp(x) /\ ~Finished(h, x) /\ h.rets[x] \in {0, NoRet}}}
+
+\* pipe() keeps a strong reference to its Desync until the output stream has been dropped and the pipe has shut down
+HeldByPipe(h, o) == \E op \in Ops : K(op) = "pipe" /\ O(op) = o /\ op \in h.called
 
 (***************************************************************************)
 (* call / ret of an API call by thread t                                   *)
@@ -103,7 +113,7 @@ ObsRet(h, t, op, c) ==
       \* C17: after despawn returned the pool is within its maximum
       h9 == IF K(op) = "despawn" THEN Viol([h8 EXCEPT !.lowering = FALSE], h8.live > h8.maxNow, "C17:despawn") ELSE h8
       \* C05: drop returned => the value was freed exactly once
-      h10 == Viol(h9, K(op) = "drop_obj" /\ c = 0 /\ h.freed[O(op)] # 1, "C05:drop-returned-unfreed")
+      h10 == Viol(h9, K(op) = "drop_obj" /\ c = 0 /\ h.freed[O(op)] # 1 /\ ~HeldByPipe(h, O(op)), "C05:drop-returned-unfreed")
   IN  h10
 
 (***************************************************************************)
@@ -182,6 +192,43 @@ ObsBlocked(h, t) ==
   IN  Viol(h, Len(st) > 0 /\ K(st[Len(st)]) = "try_sync", "C09:blocked")
 
 (***************************************************************************)
+(* Pipes                                                                   *)
+(***************************************************************************)
+PipeOp(p) == CHOOSE op \in Ops : K(op) \in {"pipe", "pipe_in"} /\ OpTab[op].p = p
+PKind(p) == K(PipeOp(p))
+PObj(p)  == O(PipeOp(p))
+PTag(p, what) == IF PKind(p) = "pipe_in" THEN "C11:" \o what ELSE "C12:" \o what
+PseudoOp(p) == 1000 + p
+PFlag(h, p, f) == [h EXCEPT !.pflags[p] = @ \cup {f}]
+
+ObsSent(h, p, item) == LET h1 == [h EXCEPT !.psent[p] = Append(@, item)] IN
+                       IF h.freed[PObj(p)] > 0 THEN PFlag(h1, p, "late_event") ELSE h1
+ObsInClosed(h, p) == IF h.freed[PObj(p)] > 0 THEN PFlag(PFlag(h, p, "in_closed"), p, "late_event") ELSE PFlag(h, p, "in_closed")
+
+ObsProcStart(h, t, p, item) ==
+  LET o  == PObj(p)
+      n  == h.pproc[p] + 1
+      h1 == [h EXCEPT !.pproc[p] = n, !.act[o] = @ \cup {PseudoOp(p)}]
+      h2 == Viol(h1, ~(n <= Len(h.psent[p]) /\ h.psent[p][n] = item), PTag(p, "item-order"))
+      h3 == Viol(h2, h.act[o] # {}, "C01:overlap")
+      h4 == Viol(h3, h.act[o] # {}, PTag(p, "overlap"))
+      h5 == Viol(h4, h.freed[o] > 0, "C05:use-after-free")
+      h6 == Viol(h5, "stream_dropped" \in h.pflags[p] /\ "closure_dropped" \in h.pflags[p], "C16:processed-after-close")
+  IN  h6
+
+ObsProcEnd(h, t, p, item) == [h EXCEPT !.pfin[p] = @ + 1, !.act[PObj(p)] = @ \ {PseudoOp(p)}]
+
+ObsOut(h, p, val) ==
+  LET n  == h.pout[p] + 1
+      h1 == [h EXCEPT !.pout[p] = n]
+      h2 == Viol(h1, ~(n <= Len(h.psent[p]) /\ val = 10 * h.psent[p][n] /\ n <= h.pfin[p]), "C12:output-order")
+      h3 == Viol(h2, "out_end" \in h.pflags[p], "C12:output-after-end")
+  IN  h3
+
+ObsOutEnd(h, p) ==
+  Viol(PFlag(h, p, "out_end"), ~("in_end" \in h.pflags[p] /\ h.pout[p] = Len(h.psent[p])), "C12:early-end")
+
+(***************************************************************************)
 (* Obligations when all threads have gone quiet.                           *)
 (*  qs[o] = <<state, queued jobs>> of object o's queue (from the model's   *)
 (*  variables, or from the crate's Debug output in a recorded trace)        *)
@@ -212,10 +259,32 @@ ObsQuiescent(h, qs, single) ==
                         ((K(w) \in {"await", "wait_sync"} /\ OpTab[w].f = f) \/ (w = f /\ OpTab[w].then \in {"await", "sync"}))
       h4 == Viol(h3, (PoolAvailable(h) \/ single) /\ h.panicked = {} /\ \E f \in Ops : awaited(f) /\ h.res[f] = 0 /\ ~StuckObj(h, O(f)),
                  "C07:await-stuck")
+      \* pipes
+      pstuck(p) == StuckObj(h, PObj(p)) \/ (OpTab[PipeOp(p)].g # 0 /\ OpTab[PipeOp(p)].g \notin h.fired /\ h.pproc[p] > h.pfin[p])
+      alive(p) == h.freed[PObj(p)] = 0 /\ ~(\E d \in Ops : K(d) = "drop_obj" /\ O(d) = PObj(p) /\ d \in h.called)
+      created(p) == h.rets[PipeOp(p)] = 0
+      reading(p) == \E w \in Ops : K(w) = "next" /\ OpTab[w].p = p /\ w \in h.called /\ h.rets[w] = NoRet
+      closedOut(p) == "stream_dropped" \in h.pflags[p]
+      released(p) == {"in_dropped", "closure_dropped"} \subseteq h.pflags[p]
+      \* C11: every item the stream yielded is processed; the pipe stops (releasing stream and closure) when the stream ends,
+      \* or at the first stream event after the Desync has gone
+      hp1 == Viol(h4, \E p \in Pipes : created(p) /\ PKind(p) = "pipe_in" /\ PoolAvailable(h) /\ alive(p) /\ ~pstuck(p)
+                                        /\ h.pfin[p] < Len(h.psent[p]), "C11:items-unprocessed")
+      hp2 == Viol(hp1, \E p \in Pipes : created(p) /\ PKind(p) = "pipe_in" /\ PoolAvailable(h) /\ ~pstuck(p)
+                                        /\ (("in_closed" \in h.pflags[p] /\ alive(p)) \/ "late_event" \in h.pflags[p]) /\ ~released(p), "C11:not-released")
+      \* C12: a reading consumer is never left waiting while an input is unprocessed/undelivered or the input has ended
+      hp3 == Viol(hp2, \E p \in Pipes : created(p) /\ PKind(p) = "pipe" /\ PoolAvailable(h) /\ ~pstuck(p) /\ ~closedOut(p) /\ reading(p)
+                                        /\ (h.pout[p] < Len(h.psent[p]) \/ "in_closed" \in h.pflags[p]), "C12:consumer-stuck")
+      \* C16: once the output stream has been dropped the pipe shuts down without any further input
+      hp4 == Viol(hp3, \E p \in Pipes : created(p) /\ PKind(p) = "pipe" /\ PoolAvailable(h) /\ ~pstuck(p) /\ closedOut(p) /\ ~released(p), "C16:not-released")
+      hp5 == Viol(hp4, \E p \in Pipes : created(p) /\ PKind(p) = "pipe" /\ PoolAvailable(h) /\ ~pstuck(p) /\ closedOut(p)
+                                        /\ (\E d \in Ops : K(d) = "drop_obj" /\ O(d) = PObj(p) /\ h.rets[d] = 0) /\ h.freed[PObj(p)] = 0, "C16:desync-not-released")
       \* C15: objects without a panicked operation stay usable and the pool keeps its capacity
       healthy(o) == ~\E a \in h.panicked : O(a) = o
-      h5 == Viol(h4, h.panicked # {} /\ h.minMax >= 1 /\ Cardinality(Blockers(h)) < h.minMax
+      h5 == Viol(hp5, h.panicked # {} /\ h.minMax >= 1 /\ Cardinality(Blockers(h)) < h.minMax
                      /\ \E a \in Ops : notDone(a) /\ healthy(O(a)) /\ O(a) \notin h.atRisk /\ ~StuckObj(h, O(a)) /\ K(a) # "fsync", "C15:healthy-stranded")
-  IN  h5
+      \* C15: a call on a panicked object must fail loudly, not block for ever
+      h6 == Viol(h5, \E a \in h.loud : h.rets[a] = NoRet, "C15:not-loud")
+  IN  h6
 
 =============================================================================
